@@ -143,9 +143,15 @@ class C11(PipelineProp):
             gen += "+flip"
         return {"gen": gen, "input": inp, "pretext": ptx, "prefix": "SUPER_"}
 
+    def run_impl(self, case):
+        return P.run_pipeline({**case, "twice": True})
+
     def oracle(self, case, obs):
         if "err" in obs:
             return None
+        if obs.get("second_call"):
+            return (f"asking the same BuildAssembly for its fused assemblies a second time changed the answer "
+                    f"(cuts, breaks, joins / rows): {obs['second_call']}")
         n_in = len(P.input_contigs(case["input"]))
         n_out = len(P.out_fragments(obs))
         if obs["cuts"] != n_out - n_in:
